@@ -213,7 +213,7 @@ _NOTE = ("Trusted: TLC, the serde projection of TrainState / PathTpc / BrakingPo
          "condition + step cap; the library's own walk()/walk_timed_path() is called once that loop has terminated and is judged "
          "by StopWindow on the state it returns). Bounded: random runs at dt = 1 s "
          "outside the two excluded input classes; BrakingCurve model exhaustive only up to its bounds (<= 5 zones). Known: F-C03-1, "
-         "F-C03-2, F-C03-3 (materialised inputs replayed on every run).")
+         "F-C03-2 (materialised inputs replayed on every run); F-C03-3 (index underflow of recalc, found by TLC) is repaired.")
 MANIFEST = {
     "C03": dict(engine="Control", design_ref="3 (C03)",
                 technique="TLA+ spec + TLC model checking of the braking-table design model + spec->impl replay of its profiles + "
